@@ -57,7 +57,8 @@ Definition module_eqb (a b : module) : bool :=
 Definition mset_insert (x : module) (l : list module) : list module :=
   if existsb (module_eqb x) l then l else l ++ [x].
 
-(* Module::build_env: (module env, build-dep modules); Panic 2 = `notify` exported as a single value *)
+(* Module::build_env: (module env, build-dep modules); a single-valued `notify` becomes the first
+   list element (after the C15 fix; the pinned code panicked) *)
 Definition build_env (global_env : env) (ms : list module) (provs : list (str * list module)) (self : module)
   : res (env * option (list module)) :=
   let deps := imports_postorder ms provs self in
@@ -68,7 +69,7 @@ Definition build_env (global_env : env) (ms : list module) (provs : list (str * 
              else match env_get (S_ "notify") e1 with
                   | None => Ok (env_insert (S_ "notify") (EList [module_define d]) e1)
                   | Some (EList l) => Ok (env_insert (S_ "notify") (EList (l ++ [module_define d])) e1)
-                  | Some (Single _) => Panic 2
+                  | Some (Single s) => Ok (env_insert (S_ "notify") (EList [s; module_define d]) e1)
                   end) (fun e2 =>
       let bd1 := if negb (module_eqb d self) && m_is_build_dep d
                  then Some (mset_insert d (odflt [] bd)) else bd in
